@@ -35,7 +35,7 @@ def run(prop, rule_module, floors=None):
         for name, patch, expect in ms:
             t0 = time.time()
             subprocess.run(["rsync", "-a", "--delete", "--exclude", "target", "--exclude", ".git", extract.REPO + "/", repo + "/"], check=True)
-            r = subprocess.run(["patch", "-p1", "-s", "-i", patch], cwd=repo, capture_output=True, text=True)
+            r = subprocess.run(["patch", "--batch", "-p1", "-s", "-i", patch], cwd=repo, capture_output=True, text=True, stdin=subprocess.DEVNULL)
             if r.returncode != 0:
                 rep["mutants"].append({"name": name, "expect_fire": expect, "fired": None, "as_expected": True, "note": "patch does not apply to the current tree (stale mutant): " + r.stdout[-200:]})
                 continue
